@@ -72,6 +72,7 @@ def events(p):
 
 
 def run(ck):
+    ck.rule('C12.f', 'sink_put_chunk, through which the encoder writes its escape pairs, returns a hard driver error unchanged and never reports a pair as written when one octet was refused (C17.a-d re-evaluated)')
     ck.rule('C12.a', 'escape tables: encoder maps ESC->(ESC,ESC_ESC), END->(ESC,ESC_END), any other octet to itself; the decoder map is the inverse; no escape sequence contains END')
     ck.rule('C12.b', 'cost: at most 2 octets emitted per consumed octet, open emits at most 1 (only with start-of-frame), close exactly 1; RFC1055_WORST_CASE(n,sof) = 2n+1 / 2n+2 (compiler-evaluated)')
     ck.rule('C12.c', 'on every decoder path the number of sink_put_octet calls is at most the number of successful source_get_octet calls of that iteration')
@@ -366,7 +367,9 @@ def run(ck):
         (k[0] == 'NORMAL' and len(k[1]) == 2 and k[1][0] == 'ESC' and k[1][1] not in ('ESC_END', 'ESC_ESC', 'ERR')) or
         (k[0] == 'START' and len(k[1]) == 1 and k[1][0].startswith('not{')))]
     ck.verdict(not bad, 'C12.d', 'decode:EILSEQ', where, '-EILSEQ only for invalid escapes and garbage before a start delimiter' if not bad else '-EILSEQ also on %s' % bad)
-
+    from .common import reevaluate
+    reevaluate(ck, 'C12.f', 'c17', lambda r, k: r in ('C17.a', 'C17.b', 'C17.c', 'C17.d') and k.startswith(('sink_put_chunk', 'sink_adapt')),
+               'escape pairs are written with sink_put_chunk: it returns a driver error unchanged and writes both octets or fails')
 
 def oracle_table():
     """DESIGN appendix A.4.  key (state, events, mode) -> (next, result, emitted)"""
